@@ -22,38 +22,50 @@ Seeds == {"0", "1", "2", "random"}
 Cwds == {"empty", "junk", "dir_named_like_system"}
 
 VARIABLES env,      \* [seed, cwd] of the process
-          calcs,    \* id -> configuration, or "none"
+          wd,       \* the process's current working directory ("start" = where it was started)
+          disk,     \* settings path (named after its original data set) -> data set its files hold NOW
+          calcs,    \* id -> configuration (the data set read at construction), or "none"
           shared,   \* version counter of the module-level state
           obs,      \* last observation <<kind, value>>
           hist      \* actions taken (observation only)
-lvars == <<env, calcs, shared, obs, hist>>
+lvars == <<env, wd, disk, calcs, shared, obs, hist>>
 Ref(c, q) == <<c, q>>
 
 LInit == /\ env \in [seed : Seeds, cwd : Cwds] /\ calcs = [i \in Ids |-> "none"] /\ shared = 0
+         /\ wd = "start" /\ disk = [c \in Cfgs |-> c]
          /\ obs = <<"none", <<>>>> /\ hist = <<>>
-Construct(i, c) == /\ calcs[i] = "none" /\ calcs' = [calcs EXCEPT ![i] = c]
-                   /\ obs' = <<"constructed", c>> /\ hist' = Append(hist, <<"Construct", i, c>>)
-                   /\ UNCHANGED <<env, shared>>
+\* a calculator is what the files at its settings path hold WHEN it is constructed
+Construct(i, c) == /\ calcs[i] = "none" /\ calcs' = [calcs EXCEPT ![i] = disk[c]]
+                   /\ obs' = <<"constructed", disk[c]>> /\ hist' = Append(hist, <<"Construct", i, c>>)
+                   /\ UNCHANGED <<env, wd, disk, shared>>
+\* the user replaces the files at path c by those of data set d (same file names, other content); calculators that exist keep
+\* what they read, calculators constructed afterwards see the new content (nothing may remember a path's old content)
+Rewrite(c, d) == /\ disk[c] # d /\ disk' = [disk EXCEPT ![c] = d]
+                 /\ hist' = Append(hist, <<"Rewrite", c, d>>) /\ obs' = <<"rewritten", c>>
+                 /\ UNCHANGED <<env, wd, calcs, shared>>
 Read(i, q) == /\ calcs[i] # "none" /\ obs' = <<"value", Ref(calcs[i], q)>>
-              /\ hist' = Append(hist, <<"Read", i, q>>) /\ UNCHANGED <<env, calcs, shared>>
+              /\ hist' = Append(hist, <<"Read", i, q>>) /\ UNCHANGED <<env, wd, disk, calcs, shared>>
 Write(i, w) == /\ calcs[i] # "none" /\ obs' = <<"files", Ref(calcs[i], w)>>
-               /\ hist' = Append(hist, <<"Write", i, w[1], w[2]>>) /\ UNCHANGED <<env, calcs, shared>>
+               /\ hist' = Append(hist, <<"Write", i, w[1], w[2]>>) /\ UNCHANGED <<env, wd, disk, calcs, shared>>
 WriteOutput(i) == /\ calcs[i] # "none" /\ obs' = <<"files", Ref(calcs[i], "write_output")>>
-                  /\ hist' = Append(hist, <<"WriteOutput", i>>) /\ UNCHANGED <<env, calcs, shared>>
+                  /\ hist' = Append(hist, <<"WriteOutput", i>>) /\ UNCHANGED <<env, wd, disk, calcs, shared>>
 \* symmetry filling applied again to the calculator's (already filled) static table: nothing changes
 Refill(i) == /\ calcs[i] # "none" /\ obs' = <<"table", Ref(calcs[i], "static_table")>>
-             /\ hist' = Append(hist, <<"Refill", i>>) /\ UNCHANGED <<env, calcs, shared>>
+             /\ hist' = Append(hist, <<"Refill", i>>) /\ UNCHANGED <<env, wd, disk, calcs, shared>>
 LNext == \/ \E i \in Ids, c \in Cfgs : Construct(i, c)
+         \/ \E c \in {"A", "C"}, d \in {"A", "C"} : Rewrite(c, d)
          \/ \E i \in Ids, q \in Quantities : Read(i, q)
          \/ \E i \in Ids, w \in Writes : Write(i, w)
          \/ \E i \in Ids : WriteOutput(i) \/ Refill(i)
 LSpec == LInit /\ [][LNext]_lvars
-LView == <<env, calcs, shared, obs>>
+LView == <<env, wd, disk, calcs, shared, obs>>
 
 \* observations depend on the calculator's configuration only
 ObsLaw == obs[1] \in {"value", "files", "table"} => \E i \in Ids : calcs[i] # "none" /\ obs[2][1] = calcs[i]
 \* no action touches the module-level state; calculators never change configuration once constructed
 SharedFrozen == [][shared' = shared]_lvars
+\* no action moves the process to another working directory
+WdFrozen == [][wd' = wd]_lvars
 CalcsStable == [][\A i \in Ids : calcs[i] # "none" => calcs'[i] = calcs[i]]_lvars
 MaxLen == 6
 Bound == Len(hist) <= MaxLen
